@@ -22,14 +22,14 @@ RULE = (
     "distribution parameters. Oracle: shape (R,P,V); unhandled columns == 0.0; shared => all realizations identical, else not all "
     "identical; bounded methods within [-1,1]; QMC (single sampler): the multiset of generated rows equals the points "
     "2u-1 of a reference engine seeded identically, call after call; LHS: per handled variable the points of a call occupy "
-    "distinct strata. A case is trivial when the sampler handles no variable."
+    "distinct strata. Beyond the small space: per method single large instances (R,P) in {(10,30),(1,130),(2,129)}, V=3, two masks x two assignments x shared on/off, same oracle. A case is trivial when the sampler handles no variable."
 )
 ASSUMPTIONS = [
     "default sampler options; scipy.stats.qmc engines are trusted (they are the reference)",
     "the point-set reference is only applied when the QMC sampler is the only consumer of the generator",
     "'not all identical' relies on continuous distributions / scrambled sequences (probability-zero coincidences ignored)",
 ]
-BOUNDS = {"quick": "R<=3, P in {1,2,4,8}, V<=3, 2 seeds", "thorough": "R<=3, P in {1,2,4,8}, V<=3, 4 seeds"}
+BOUNDS = {"quick": "R<=3, P in {1,2,4,8}, V<=3, 2 seeds; + 3 large spot shapes per method (up to 300 points per request)", "thorough": "R<=3, P in {1,2,4,8}, V<=3, 4 seeds; + 3 large spot shapes per method, 2 seeds"}
 METHODS = ["norm", "uniform", "truncnorm", "sobol", "halton", "lhs"]
 QMC = {"sobol", "halton", "lhs"}
 BOUNDED = {"uniform", "truncnorm", "sobol", "halton", "lhs"}
@@ -209,6 +209,9 @@ def shards(tier: str, seed: int) -> list[dict[str, Any]]:
             for P in ps:
                 for V in (1, 2, 3):
                     out.append({"method": method, "R": R, "P": P, "V": V, "tier": tier, "seed": seed})
+        # single large instances next to the exhaustive small space (more than 128 / 256 points in one request)
+        for R, P in ((10, 30), (1, 130), (2, 129)):
+            out.append({"method": method, "R": R, "P": P, "V": 3, "tier": tier, "seed": seed, "large": 1})
     return out
 
 
@@ -218,6 +221,9 @@ def run_shard(shard: dict[str, Any]) -> core.ShardResult:
     masks: list[Any] = [None] + [list(b) for b in itertools.product((True, False), repeat=V) if not all(b)]
     assigns: list[Any] = [None] + [list(a) for a in itertools.product((0, 1), repeat=V)]
     seeds = [3 + shard["seed"], 4 + shard["seed"]] + ([11, 12 + shard["seed"]] if shard["tier"] == "thorough" else [])
+    if shard.get("large"):
+        masks, assigns = [None, [True, False, True]], [None, [0, 1, 0]]
+        seeds = seeds[:1] if shard["tier"] != "thorough" else seeds[:2]
     for mask in masks:
         for assign in assigns:
             for shared in (False, True):
